@@ -101,6 +101,7 @@ class C07(Prop):
     def tie(self, stats, tier, seed):
         cmp = getattr(self, "compare", True)
         core.tie_run(stats, "vq", ["gen-seq", seed, 6000 if tier == "thorough" else 700], self.nontrivial, cmp)
+        core.tie_run(stats, "vq", ["gen-backlog"], self.nontrivial, cmp)
         if tier == "thorough":
             core.tie_run(stats, "vq", ["gen-seq-exh", 5], self.nontrivial, cmp)
 
@@ -154,7 +155,7 @@ class C01(Prop):
 class C11(Prop):
     id = "C11"
     module = "MioModel.Props.C11"
-    bins = ["stream"]
+    bins = ["stream", "node"]
     run_bin = "stream"
     rule = ("cases = loopback Tcp connections: node<->node, raw writer->node, node->raw reader, both directions, buffer "
             "size sequences from 0 bytes to several hundred KiB (thorough: MiB) around the 65535-byte read buffer, burst / "
@@ -170,6 +171,8 @@ class C11(Prop):
         cmp = getattr(self, "compare", True)
         th = tier == "thorough"
         core.tie_run(stats, "stream", ["gen-e2e", seed + 4, 300 if th else 60, "T"], self.nontrivial, cmp)
+        # through the node layer: chunks that arrive before for_each / for_each_async / enqueue is called
+        core.tie_run(stats, "node", ["gen-tcp"], self.nontrivial, cmp)
         if th:
             core.tie_run(stats, "stream", ["gen-e2e", seed + 5, 40, "T", "big"], self.nontrivial, cmp)
 
@@ -510,6 +513,7 @@ class C08(Prop):
         core.tie_run(stats, "vq", ["gen-conc", seed + 3, 4000 if th else 500], self.nontrivial, cmp)
         core.tie_run(stats, "vq", ["gen-stress", seed + 3, 12 if th else 4, 10000 if th else 2000], self.nontrivial, cmp)
         core.tie_run(stats, "vq", ["gen-clones", 300000 if th else 100000], self.nontrivial, cmp)
+        core.tie_run(stats, "vq", ["gen-backlog"], self.nontrivial, cmp)
 
     def search(self, tier, seed):
         st = core.Stats()
